@@ -82,7 +82,7 @@ class Engine:
         self.cfg = c
         self.cfg_path = os.path.join(self.root, "config.toml")
         with open(self.cfg_path, "w") as f:
-            f.write(CFG_TMPL.format(root=self.root, **c))
+            f.write(CFG_TMPL.format(root=self.root, **{k: v for k, v in c.items() if k in DEFAULTS}))
         self.p = None
         self.lifetimes = 0
 
